@@ -152,7 +152,7 @@ def run_obligations(obs, tier, seed, jobs=None, verbose=True):
             p.start()
             cc.close()
             # hard limit: budget for the prover plus slack for tracing / replay
-            running[ob.name] = (p, pc, time.time(), ob.budget.get(tier, 60) * 1.5 + 60, ob)
+            running[ob.name] = (p, pc, time.time(), ob.budget.get(tier, 60) * 6 + 180, ob)  # wall-clock safety net only: the provers budget themselves in CPU time
         time.sleep(0.02)
         for name in list(running):
             p, pc, t0, limit, ob = running[name]
